@@ -34,13 +34,16 @@ type Case struct {
 	SecondNode bool   `json:"second_node"` // the last activator goes through another node's service stack
 	// SameClient: every activation comes from the SAME listen client (double submit / retry after a timeout),
 	// at different listen addresses; the revoker uses that identity too. Revoke2: a second, identical revoke.
-	SameClient bool   `json:"same_client,omitempty"`
-	Revoke2    bool   `json:"revoke_twice,omitempty"`
-	Cluster    bool   `json:"cluster"`     // two nodes, each with its own hybrid store + node-local cache over one shared cache tier
-	Gran       string `json:"granularity"` // which tier operations are scheduling points: code | shared | all
-	QuotaFull  int    `json:"quota_full"`  // index of an activator whose listen client is already at its mapping quota (-1 none)
-	Picks      []int  `json:"picks"`
-	FailAt     int    `json:"fail_at"` // index (execution order) of the storage write that fails; -1 none
+	SameClient bool `json:"same_client,omitempty"`
+	Revoke2    bool `json:"revoke_twice,omitempty"`
+	// Generate: a further task - the target client generates ANOTHER code (CreateConnectionCode for the same
+	// target client: counts and lists its codes, may housekeep old ones) while the first code is activated / revoked
+	Generate  bool   `json:"generate_another_code,omitempty"`
+	Cluster   bool   `json:"cluster"`     // two nodes, each with its own hybrid store + node-local cache over one shared cache tier
+	Gran      string `json:"granularity"` // which tier operations are scheduling points: code | shared | all
+	QuotaFull int    `json:"quota_full"`  // index of an activator whose listen client is already at its mapping quota (-1 none)
+	Picks     []int  `json:"picks"`
+	FailAt    int    `json:"fail_at"` // index (execution order) of the storage write that fails; -1 none
 	// TierFail k>0: the k-th (1-based, release order) gated cache-TIER write on a code/claim key returns an
 	// error (below the hybrid facade: shared or node-local tier); 0 none. Exclusive with FailAt.
 	TierFail int `json:"tier_fail,omitempty"`
@@ -189,7 +192,18 @@ func runConcurrent(c Case, choose func(int, []string) int) outcome {
 	if c.SecondNode || c.Cluster {
 		nNodes = 2
 	}
-	w := newWorldWith(nNodes, &services.ConnectionCodeServiceConfig{MaxActiveCodesPerClient: 10, MaxActiveMappingsPerClient: max}, true, granSel(c.Gran), c.Cluster)
+	baseSel := granSel(c.Gran)
+	var focus []string // Generate: of the code-record keys only those of the code under test are scheduling points
+	sel := func(k string) bool {
+		if !baseSel(k) {
+			return false
+		}
+		if len(focus) > 0 && strings.HasPrefix(k, "tunnox:runtime:conncode:") {
+			return strings.HasSuffix(k, ":"+focus[0]) || strings.HasSuffix(k, ":"+focus[1])
+		}
+		return true
+	}
+	w := newWorldWith(nNodes, &services.ConnectionCodeServiceConfig{MaxActiveCodesPerClient: 10, MaxActiveMappingsPerClient: max}, true, sel, c.Cluster)
 	defer w.close()
 	var o outcome
 	// ---- set-up (ungated) --------------------------------------------------------
@@ -226,6 +240,10 @@ func runConcurrent(c Case, choose func(int, []string) int) outcome {
 				}
 			}
 		}
+	}
+	if c.Generate {
+		// the new code's own records are private to the generating task (they commute with everything else)
+		focus = []string{code.Code, code.ID}
 	}
 	if c.TierFail > 0 {
 		w.g.FailAt = c.TierFail - 1
@@ -266,6 +284,12 @@ func runConcurrent(c Case, choose func(int, []string) int) outcome {
 			n2 := w.nodes[len(w.nodes)-1]
 			w.g.Go("R2", func() { rev2Err = n2.cc.RevokeConnectionCode(code.Code, by) })
 		}
+	}
+	var genErr error
+	if c.Generate {
+		w.g.Go("G", func() {
+			_, genErr = w.nodes[0].cc.CreateConnectionCode(&services.CreateConnectionCodeRequest{TargetClientID: targetClient, TargetAddress: "tcp://10.0.0.6:9090", ActivationTTL: time.Hour, CreatedBy: "verif"})
+		})
 	}
 	o.log = w.g.Run(choose)
 	w.g.Deactivate()
@@ -370,6 +394,9 @@ func runConcurrent(c Case, choose func(int, []string) int) outcome {
 	if c.Revoke2 {
 		prog += "+R"
 	}
+	if c.Generate {
+		prog += "+G"
+	}
 	if c.SameClient {
 		prog += "/same-client"
 	}
@@ -402,6 +429,9 @@ func runConcurrent(c Case, choose func(int, []string) int) outcome {
 		if c.Revoke2 {
 			outcomes += " R2=" + errCode(rev2Err)
 		}
+	}
+	if c.Generate {
+		outcomes += " G=" + errCode(genErr)
 	}
 	faultSfx := ""
 	if o.failedOp != "" {
@@ -575,7 +605,7 @@ func recStr(c *models.TunnelConnectionCode) string {
 }
 
 func sigOf(c Case, o outcome) string {
-	return fmt.Sprintf("%d|%v%v|%v|%v|%v|%s|%d|%s|%s|%s", c.NAct, c.Revoke, c.Revoke2, c.SameClient, c.SecondNode, c.Cluster, c.Gran, c.QuotaFull, o.failedOp, c.ExpirePoint, normSteps(o.log))
+	return fmt.Sprintf("%d|%v%v%v|%v|%v|%v|%s|%d|%s|%s|%s", c.NAct, c.Revoke, c.Revoke2, c.Generate, c.SameClient, c.SecondNode, c.Cluster, c.Gran, c.QuotaFull, o.failedOp, c.ExpirePoint, normSteps(o.log))
 }
 
 func report(t vkit.TB, c Case, o outcome) {
@@ -710,6 +740,7 @@ func spaces() []space {
 	cl := func(c Case) Case { c.Cluster = true; return c }
 	sc := func(c Case) Case { c.SameClient = true; return c }
 	r2 := func(c Case) Case { c.Revoke2 = true; return c }
+	gn := func(c Case) Case { c.Generate = true; return c }
 	return []space{
 		// code-record granularity: 3 scheduling points per task
 		{mk(2, false, false, "code", -1), 1, 1 << 30, false},              // 20 schedules
@@ -718,6 +749,12 @@ func spaces() []space {
 		{mk(3, false, true, "code", -1), 2, 1 << 30, false},               // 1680
 		{mk(2, false, false, "code", 0), 1, 1 << 30, false},               // quota-full activator races a valid one
 		{mk(3, true, false, "code", -1), 3, vkit.Pick(400, 60000), false}, // 369600: capped
+		// the target client generates another code meanwhile
+		{gn(mk(1, true, false, "code", -1)), 2, 1 << 30, false},
+		{gn(cl(mk(1, true, false, "code", -1))), 2, 1 << 30, false},
+		{gn(mk(2, false, false, "code", -1)), 2, 1 << 30, false},
+		{gn(mk(2, true, false, "code", -1)), 3, vkit.Pick(800, 1<<30), false},
+		{gn(mk(1, true, false, "shared", -1)), 4, vkit.Pick(400, 60000), false},
 		// the same client submits the activation twice (and revokes with the same identity)
 		{sc(mk(2, false, false, "code", -1)), 1, 1 << 30, false},
 		{sc(mk(2, true, false, "code", -1)), 2, 1 << 30, false},
@@ -752,6 +789,9 @@ func TestExhaustive(t *testing.T) {
 		}
 		if s.c.Revoke2 {
 			name += "+R"
+		}
+		if s.c.Generate {
+			name += "+G"
 		}
 		if s.c.SameClient {
 			name += "/same-client"
@@ -876,6 +916,7 @@ func TestRandomSchedules(t *testing.T) {
 			c.QuotaFull = -1
 		}
 		c.Revoke2 = c.Revoke && rapid.IntRange(0, 3).Draw(t, "revokeTwice") == 0
+		c.Generate = rapid.IntRange(0, 2).Draw(t, "generateAnotherCode") == 0
 		if rapid.IntRange(0, 3).Draw(t, "tierFaultInsteadOfFacadeFault") == 0 {
 			c.FailAt, c.TierFail = -1, rapid.IntRange(1, 8).Draw(t, "tierFail")
 		}
